@@ -149,6 +149,10 @@ def sb5(facts, rep):
                 rep.ok(rule, key, '%s:%s' % (a.file, a.line), str(ga))
             else:
                 rep.bad(rule, key, '%s:%s' % (c.file, c.line), 'constructors check different preconditions: %s vs %s' % (ga, gc))
+    smallints_thresholds(facts, rep, rule)
+
+
+def smallints_thresholds(facts, rep, rule):
     # SmallInts thresholds
     sigs = {}
     for nm in ('push', 'set', 'real_value'):
